@@ -331,15 +331,59 @@ def _check_no_heap_write(st, before):
 
 
 def exec_while(I, s, st, ctx):
+    """Inductive rule for `while cond: body` with a sidecar invariant (partial correctness:
+    termination is not proved, A-TERM)."""
     specs = ctx.get("loops") or {}
     qual = ctx.get("qual")
     spec = None
     for (q_, hdr), sp in specs.items():
         if q_ == qual and hdr in ast.unparse(s.test):
             spec = sp
-    if spec is None:
+    if spec is None or spec.inv is None:
         raise OutOfReach("while loop without invariant")
-    raise OutOfReach("while loops: not implemented yet")
+    obligations = ctx.get("obligations")
+    label = spec.name or spec.header
+    mod = set(spec.modifies) if spec.modifies is not None else assigned_names(s.body)
+    if obligations is not None:
+        obligations.append(("loop-inv-entry:%s" % label, st.fork(), spec.inv(I, st, None)))
+    out = []
+    # arbitrary iteration
+    it = st.fork()
+    havoc_vars(I, it, mod)
+    if spec.heap:
+        spec.heap(I, it)
+    it.pc.append(spec.inv(I, it, None))
+    brk, esc = [], []
+    if I.feasible(it):
+        for (q, cv) in I.eval(s.test, it, ctx):
+            if isinstance(cv, Raise):
+                esc.append((q, ("raise", cv)))
+                continue
+            for (r, b) in I.branch(q, I.truth_in(q, cv)):
+                if not b:
+                    continue
+                c, b2, e = run_body(I, s.body, r, ctx)
+                brk += b2
+                esc += e
+                for z in c:
+                    if obligations is not None:
+                        obligations.append(("loop-inv-preserved:%s" % label, z.fork(), spec.inv(I, z, None)))
+    # exit: invariant and negated condition
+    ex = st.fork()
+    havoc_vars(I, ex, mod)
+    if spec.heap:
+        spec.heap(I, ex)
+    ex.pc.append(spec.inv(I, ex, None))
+    done = []
+    if I.feasible(ex):
+        for (q, cv) in I.eval(s.test, ex, ctx):
+            if isinstance(cv, Raise):
+                esc.append((q, ("raise", cv)))
+                continue
+            for (r, b) in I.branch(q, I.truth_in(q, cv)):
+                if not b:
+                    done.append(r)
+    return _finish(I, s, done, brk, esc, ctx)
 
 
 def _comprehension_symbolic(I, e, g, st, itv, ctx, kind):
